@@ -832,16 +832,20 @@ func (ps *peerStore) collectGarbage(cutoff time.Time) error {
 
 				_ = conn.Send("MULTI")
 				_ = conn.Send("HDEL", group, ihStr)
-				if isSeeder {
-					_ = conn.Send("DECR", ps.infohashCountKey(group))
-				}
-				_, err = redis.Values(conn.Do("EXEC"))
+				reply, err := redis.Int64s(conn.Do("EXEC"))
 				if err != nil && !errors.Is(err, redis.ErrNil) {
 					log.Error("storage: Redis EXEC failure", log.Fields{
 						"group":    group,
 						"infohash": ihStr,
 						"error":    err,
 					})
+				}
+				// Only the pass that removed the infohash key accounts for it:
+				// another instance's pass may have removed it already.
+				if err == nil && len(reply) == 1 && reply[0] == 1 && isSeeder {
+					if _, err := conn.Do("DECR", ps.infohashCountKey(group)); err != nil {
+						return err
+					}
 				}
 			} else {
 				if _, err = conn.Do("UNWATCH"); err != nil && !errors.Is(err, redis.ErrNil) {
